@@ -1201,6 +1201,7 @@ static void job_sweep(kv_t* kv, FILE* out) {
   if (step < 1) step = 1;
   uint64_t runs = 0, resumed = 0, mismatches = 0;
   char buf[64];
+  char first_mm[400] = "";
   for (uint64_t p = from; p < to; p += step) {
     snprintf(buf, sizeof buf, "%" PRIu64, p);
     kv_t kv2 = *kv;
@@ -1215,14 +1216,18 @@ static void job_sweep(kv_t* kv, FILE* out) {
                 s.g[2] == ref.g[2] && s.stalled == ref.stalled;
     if (same && !err && !referr && s.consumed != ref.consumed) same = false;
     if (!same) {
+      if (!mismatches)
+        snprintf(first_mm, sizeof first_mm,
+                 "split=%" PRIu64 ": status %.40s vs one-shot %.40s; out %" PRIu64 ":%016" PRIx64 " vs %" PRIu64 ":%016" PRIx64 "; consumed %" PRIu64 " vs %" PRIu64, p,
+                 s.status ? s.status : "ok", ref.status ? ref.status : "ok", s.out_len, s.out_hash, ref.out_len, ref.out_hash, s.consumed, ref.consumed);
       mismatches++;
-      mon("sweep %s split=%" PRIu64 ": status %.40s/%.40s out %" PRIu64 ":%016" PRIx64 "/%" PRIu64 ":%016" PRIx64 " consumed %" PRIu64 "/%" PRIu64, dst_axis ? "dst" : "src", p,
-          s.status ? s.status : "ok", ref.status ? ref.status : "ok", s.out_len, s.out_hash, ref.out_len, ref.out_hash, s.consumed, ref.consumed);
     }
   }
   (void)ref_mon;
   fprintf(out, "\"sweep\":\"%s\",\"status\":", dst_axis ? "dst" : "src");
   json_str(out, ref.status);
+  fprintf(out, ",\"first_mismatch\":");
+  json_str(out, first_mm);
   fprintf(out, ",\"runs\":%" PRIu64 ",\"resumed\":%" PRIu64 ",\"mismatches\":%" PRIu64 ",\"in_len\":%zu,\"out_len\":%" PRIu64 ",\"consumed\":%" PRIu64 ",", runs, resumed, mismatches, in_len,
           ref.out_len, ref.consumed);
   free(in);
